@@ -27,6 +27,7 @@ class Opts:
         self.txn_timeout_paths = True
         self.txn_body_raise = False   # fork one 'ANY' raise at the end of each txn body
         self.for_unroll_max = 16      # loops over constant sequences up to this length are unrolled exactly
+        self.for_two = False          # also follow a second iteration of abstract for loops (state carried over)
         for k, v in kw.items():
             if not hasattr(self, k):
                 raise TypeError(k)
@@ -550,6 +551,23 @@ class Interp(ExprMixin, CallMixin):
                 for outcome, s2 in self.exec_block(n.body, s1):
                     k = outcome[0]
                     if k in ('next', 'continue'):
+                        if self.opts.for_two:
+                            # a second iteration with whatever the first one left behind
+                            s3 = s2.fork()
+                            self.emit(s3, 'FOR', n, it=2, iter=itv)
+                            for s4 in self.bind_loop_target(n.target, itv, s3, n.iter):
+                                if isinstance(s4, tuple):
+                                    out.append(s4)
+                                    continue
+                                for outcome2, s5 in self.exec_block(n.body, s4):
+                                    k2 = outcome2[0]
+                                    if k2 in ('next', 'continue'):
+                                        self.emit(s5, 'FOREND', n)
+                                        out.extend(self.exec_block(n.orelse, s5) if n.orelse else [(('next',), s5)])
+                                    elif k2 == 'break':
+                                        out.append((('next',), s5))
+                                    else:
+                                        out.append((outcome2, s5))
                         self.emit(s2, 'FOREND', n)
                         out.extend(self.exec_block(n.orelse, s2) if n.orelse else [(('next',), s2)])
                     elif k == 'break':
